@@ -59,5 +59,15 @@ Definition run (s : sx) : sx :=
   | 5 => (* plain-integer instance of the same generic Viterbi: cols init frames -> path *)
       let z := fun m => map xZs (xL m) in
       oPath (viterbi_z (xZs (a 2%nat)) (z (a 1%nat)) (z (a 3%nat)))
+  | 6 => (* sequence_note_frames: notes((pitch start end drum program)...) total -> (pitches event_times has_onsets has_notes) *)
+      let total := xZ (a 2%nat) in
+      let ns := frame_notes (map (fun r => mkF (xZ (xnth 0 r)) (xZ (xnth 1 r)) (xZ (xnth 2 r)) (xB (xnth 3 r)) (xZ (xnth 4 r)))
+                                 (xL (a 1%nat))) total in
+      let et := note_event_times ns total in
+      let ps := note_pitches ns in
+      let frames := seq 0 (Datatypes.S (length et)) in
+      L [oZs ps; oZs et;
+         L (map (fun f => L (map (fun p => oB (has_onset ns et f p)) ps)) frames);
+         L (map (fun f => L (map (fun p => oB (has_note ns et f p)) ps)) frames)]
   | _ => oErr 0
   end.
